@@ -43,9 +43,9 @@ def runs(draw, tier):
          "torch_seed": draw(st.integers(0, 2 ** 31 - 1)), "k": draw(st.integers(0, 2))}
     if with_bases:
         bs = [draw(gen.basis_string(n)) if draw(st.booleans()) else "Z" * n for _ in range(N)]
-        bs[draw(st.integers(0, N - 1))] = "Z" * n
         if N >= 3 and draw(st.booleans()):
             bs[1] = bs[2]                    # duplicate basis with (likely) different rows
+        bs[draw(st.integers(0, N - 1))] = "Z" * n     # the library's precondition: at least one reference-basis row (forced last)
         c["bases"] = bs
     return c
 
